@@ -214,6 +214,8 @@ impl Default for GenCfg {
 }
 
 pub const EXOTIC: &[char] = &['ǅ', 'ǈ', 'ǲ', 'ᾈ'];
+/// literal characters that mean something to the regex back end but nothing to a glob
+pub const REGEX_SPECIAL: &[char] = &['|', '+', '^', '#', '&', '~', '=', '@', '%', ';', '\'', '"'];
 
 fn gen_lit(t: &mut Tape, cfg: &GenCfg) -> Tok {
     let ci = t.chance(cfg.ci);
@@ -233,6 +235,10 @@ fn gen_lit(t: &mut Tape, cfg: &GenCfg) -> Tok {
         }
         else if t.chance(16) {
             text.push(t.pick(META));
+        }
+        else if t.chance(12) {
+            // not special in a glob, but special in the regular expression it compiles to
+            text.push(t.pick(REGEX_SPECIAL));
         }
         else {
             text.push(t.pick(ALPHA));
